@@ -14,7 +14,7 @@ pub fn props() -> Vec<Prop> {
         id: "C12",
         run: c12,
         tools: None,
-        rule: "every public Memfs method (all Op variants: creators, writers, readers, remove/move/copy/symlink, chmod/chown builders, queries, listings, entries) is called under catch_unwind with every string up to length 3 (quick) / 4 (thorough) over the 13-symbol hostile alphabet {/ . ~ $ { } : a e-acute euro emoji space backslash} (two-path methods: every ordered pair of strings up to length 2 / 3) from 3 prepared states, plus long '..' chains, 4 KiB names, seeded random Unicode, extreme modes (0, 0o7777, u32::MAX) and ids; read/write/append handles get extreme seek/read scripts. After every call that returned Err or panicked - and after every call that reported success and changed the state - a probe (mkfile + exists + remove of a fresh path, lock not poisoned, C03 walker) must succeed. A CPU/wall watchdog turns a call that does not return into a hang record, a counting allocator turns unbounded allocation into a blow-up record. The 21 PathExt helpers, sys::* path functions, StringExt, IteratorExt (extreme indices) and PeekableExt run over the same strings / all pairs. Run in the checked-arithmetic profile and again in a wrapping-arithmetic (release-like) profile. distinct_nontrivial = distinct (function, string class(es), outcome class) triples. Later additions: a second exhaustive alphabet of characters whose case mapping changes their UTF-8 length; a 70-deep prepared state with an empty directory at the bottom (deeper than the traversal's cap of 50 open directories); links whose recorded kind is stale; links to nothing that point at each other and a link to itself; every single-path method and a set of follow-option calls on every prepared path.",
+        rule: "every public Memfs method (all Op variants: creators, writers, readers, remove/move/copy/symlink, chmod/chown builders, queries, listings, entries) is called under catch_unwind with every string up to length 3 (quick) / 4 (thorough) over the 13-symbol hostile alphabet {/ . ~ $ { } : a e-acute euro emoji space backslash} (two-path methods: every ordered pair of strings up to length 2 / 3) from 3 prepared states, plus long '..' chains, 4 KiB names, seeded random Unicode, extreme modes (0, 0o7777, u32::MAX) and ids; read/write/append handles get extreme seek/read scripts. After every call that returned Err or panicked - and after every call that reported success and changed the state - a probe (mkfile + exists + remove of a fresh path, lock not poisoned, C03 walker) must succeed. A CPU/wall watchdog turns a call that does not return into a hang record, a counting allocator turns unbounded allocation into a blow-up record. The 21 PathExt helpers, sys::* path functions, StringExt, IteratorExt (extreme indices) and PeekableExt run over the same strings / all pairs. Run in the checked-arithmetic profile and again in a wrapping-arithmetic (release-like) profile. distinct_nontrivial = distinct (function, string class(es), outcome class) triples. Later additions: a second exhaustive alphabet of characters whose case mapping changes their UTF-8 length; a 70-deep prepared state with an empty directory at the bottom (deeper than the traversal's cap of 50 open directories); links whose recorded kind is stale; links to nothing that point at each other and a link to itself; every single-path method and a set of follow-option calls on every prepared path; single calls that create / list / chmod / move / remove 6000 levels at once (copy: 400) on a thread with a 256 KiB stack - a worker killed by stack exhaustion inside such a call leaves a crash record that is reported like a hang.",
         assumptions: &["a hang is decided on CPU time burnt inside one call (20 s) or on 90 s without progress and without CPU use; anything else that stalls is inconclusive"],
         shards_quick: 8,
         shards_thorough: 16,
@@ -253,6 +253,46 @@ fn run_ops(state_k: usize, ops: &[Op], classes: &str, rep: &mut Report) {
     }
 }
 
+/// ONE call that has to create (or take away, or copy) thousands of levels at once, on a thread with a small stack (256
+/// KiB - what a thread pool hands out): bounded stack use is part of "returns". The prepared 70-deep state is built
+/// level by level and would not notice a call that recurses once per missing level. A stack overflow kills the worker;
+/// the record it leaves (infra::install_crash_handler) is reported like a hang.
+fn deep_single_calls(rep: &mut Report) {
+    let levels = 6000;
+    let deep = format!("/dp{}", "/d".repeat(levels));
+    let deeper = format!("{}{}", deep, "/e".repeat(8));
+    let m = Memfs::new();
+    let steps: Vec<(&str, Box<dyn Fn(&Memfs) -> bool + Send + Sync>)> = vec![
+        ("mkdir_p(6000-missing-levels)", Box::new({ let p = deep.clone(); move |m: &Memfs| m.mkdir_p(&p).is_ok() })),
+        ("mkdir_m(8-more-levels)", Box::new({ let p = deeper.clone(); move |m: &Memfs| m.mkdir_m(&p, 0o700).is_ok() })),
+        ("write_all(at-the-bottom)", Box::new({ let p = format!("{}/f", deeper); move |m: &Memfs| m.write_all(&p, b"x").is_ok() })),
+        ("all_paths(deep-tree)", Box::new(|m: &Memfs| m.all_paths("/dp").map(|v| v.len() > 6000).unwrap_or(false))),
+        ("chmod(deep-tree)", Box::new(|m: &Memfs| m.chmod("/dp", 0o750).is_ok())),
+        ("move_p(deep-tree)", Box::new(|m: &Memfs| m.move_p("/dp", "/dp3").is_ok())),
+        // (copy re-creates every missing ancestor for every entry: cubic in the depth, so a shallower tree of its own)
+        ("copy(400-levels-at-once)", Box::new(|m: &Memfs| m.mkdir_p(format!("/cp{}", "/d".repeat(400))).is_ok() && m.copy("/cp", "/cp2").is_ok() && m.exists(format!("/cp2{}", "/d".repeat(400))))),
+        ("remove_all(deep-tree)", Box::new(|m: &Memfs| m.remove_all("/dp3").is_ok() && m.remove_all("/cp2").is_ok() && !m.exists("/dp3"))),
+    ];
+    for (name, f) in steps {
+        rep.eval();
+        let call = format!("{}(deep-single-call)", name);
+        set_case(&format!("total:{}:returns→stack-exhausted-or-killed", call), &format!("one call on a fresh Memfs, thread stack 256 KiB, {} levels", levels));
+        CRASH_ATTRIBUTION.store(true, std::sync::atomic::Ordering::SeqCst);
+        let mref = &m;
+        let fref = &f;
+        let r = std::thread::scope(|sc| std::thread::Builder::new().stack_size(256 * 1024).spawn_scoped(sc, move || catch(|| fref(mref))).map(|h| h.join()));
+        CRASH_ATTRIBUTION.store(false, std::sync::atomic::Ordering::SeqCst);
+        rep.count("deep_single_calls", 1);
+        match r {
+            Ok(Ok(Ok(true))) => rep.key_str(&format!("{}→ok", call)),
+            Ok(Ok(Ok(false))) => rep.violation(&format!("total:{}:Ok→Err-or-short", call), J::s(&call)),
+            Ok(Ok(Err(msg))) => rep.violation(&format!("total:{}:returns→panic", call), J::s(msg)),
+            _ => rep.inconclusive("could not run a deep single call on its own thread"),
+        }
+    }
+    probe(&m, "deep-single-calls", rep, &J::Null);
+}
+
 fn handle_scripts(rep: &mut Report) {
     let m = build_state(1);
     let offs: [i64; 9] = [i64::MIN, i64::MIN + 1, -5, -1, 0, 1, 5, i64::MAX - 1, i64::MAX];
@@ -489,6 +529,7 @@ fn c12(ctx: &Ctx, rep: &mut Report) {
             }
         }
         handle_scripts(rep);
+        deep_single_calls(rep);
         // the deep tree: every single-path method on its root, its middle and its bottom, two-path methods out of it
         let bottom = format!("/deep{}", "/d".repeat(70));
         let middle = format!("/deep{}", "/d".repeat(56));
